@@ -54,7 +54,7 @@ fn plan(tier: Tier) -> Plan {
     let (r, c) = ex_scope(tier);
     match tier {
         Tier::Quick => Plan {
-            cases: exhaustive_count(r, c) + 80_000,
+            cases: exhaustive_count(r, c) + 300_000,
             time_cap_s: 40,
             case_timeout_s: 20,
             exhaustive: false,
